@@ -221,6 +221,21 @@ pub fn run(args: &Args) -> Report {
                 }
             }
         }
+        // (5b) "... and all": no GROUP / FUNCTION remains that has no member at all (no object reference, no sub-group /
+        //      sub-function entry) and that nothing refers to (USER_RIGHTS REF_GROUP; FUNCTION_LIST of an object or group)
+        for (tag, ns, member_sites) in [
+            ("GROUP", Ns::Group, &["RefCharacteristic.identifier_list", "RefMeasurement.identifier_list", "SubGroup.identifier_list"][..]),
+            ("FUNCTION", Ns::Function, &["DefCharacteristic.identifier_list", "RefCharacteristic.identifier_list", "InMeasurement.identifier_list", "LocMeasurement.identifier_list", "OutMeasurement.identifier_list", "SubFunction.identifier_list"][..]),
+        ] {
+            for (otag, name) in g1.order.iter().filter(|(t, _)| t == tag) {
+                let members = g1.refs.iter().filter(|(_, r)| r.owner.0 == *otag && r.owner.1 == *name && member_sites.contains(&r.site.as_str())).count();
+                let used = g1.refs.iter().any(|(n, r)| *n == ns && r.target == *name && !(r.site == "SubGroup.identifier_list" || r.site == "SubFunction.identifier_list"));
+                let listed = g1.refs.iter().any(|(n, r)| *n == ns && r.target == *name);
+                if members == 0 && !used && !listed {
+                    rep.fail("unreferenced-kept", input.clone(), format!("{tag} {name} has no members and nothing refers to it after cleanup(), but it was not removed"));
+                }
+            }
+        }
         rep.tie(format!("cln {}", nodes_text_nohash(&m0)), nodes_text_nohash(&m1));
         // (6) idempotent
         let mut twice = file.clone();
